@@ -912,7 +912,7 @@ type gateCase struct {
 }
 
 var gateKinds = []string{"self", "cycle", "chain", "missing", "not-allowed", "not-allowed-nil-fs-canary", "via-generate-not-allowed", "nested-generate", "generate-limit", "generate-in-include-depth", "generate-overflow",
-	"generate-include-uses-fs", "nested-generate-via-include"}
+	"generate-include-uses-fs", "nested-generate-via-include", "overlong-completion"}
 
 func genGate(t *rapid.T) gateCase {
 	c := gateCase{Kind: rapid.SampledFrom(gateKinds).Draw(t, "kind")}
@@ -935,6 +935,10 @@ func eachGate(emit func(gateCase)) {
 	pre, suf := "p0.example. 300 IN A 10.1.1.0\n", "z.example. 300 IN A 10.2.2.2\n"
 	for _, k := range gateKinds {
 		switch k {
+		case "overlong-completion":
+			for d := 0; d < 4; d++ {
+				emit(gateCase{Kind: k, Depth: d, Prefix: pre, Suffix: suf, N: 1, Step: 1})
+			}
 		case "chain", "generate-in-include-depth":
 			for d := 1; d <= 10; d++ {
 				emit(gateCase{Kind: k, Depth: d, Prefix: pre, Suffix: suf, N: 1, Step: 1})
@@ -943,10 +947,12 @@ func eachGate(emit func(gateCase)) {
 			// both sides of the step-count limit, every kind of remainder
 			for _, n := range []int64{65535, 65536, 65537} {
 				for _, st := range []int64{1, 2, 3, 7} {
+					seen := map[int64]bool{}
 					for _, rem := range []int64{0, 1, st / 2, st - 1} {
-						if rem >= st || (rem == st/2 && (rem <= 1 || rem == st-1)) || (rem == 1 && st-1 == 1 && false) {
+						if rem >= st || seen[rem] {
 							continue
 						}
+						seen[rem] = true
 						emit(gateCase{Kind: k, Prefix: pre, Suffix: suf, N: n, Step: st, Rem: rem})
 					}
 				}
@@ -979,6 +985,26 @@ func nestedFile() string {
 		}
 	}
 	return nestedPath
+}
+
+// kOverlong: names that exceed 255 octets after completion with the origin are accepted.
+const kOverlong = "overlong-completed-name"
+
+// overlongLine: l63.l63.l63.l61 is 255 octets in wire form (valid); under origin example. the
+// completed name has 263.
+func overlongLine(variant int) string {
+	l63 := strings.Repeat("a", 63)
+	rel := l63 + "." + l63 + "." + l63 + "." + strings.Repeat("b", 61)
+	switch variant {
+	case 0:
+		return rel + " 300 IN A 10.0.0.1\n"
+	case 1:
+		return "x 300 IN NS " + rel + "\n"
+	case 2:
+		return "$ORIGIN " + rel + "\n@ 300 IN A 10.0.0.1\n"
+	default:
+		return "x 300 IN MX 10 " + rel + "\n"
+	}
 }
 
 var canaryPath string
@@ -1125,6 +1151,16 @@ func checkGate(c gateCase) error {
 		files[strings.TrimLeft(nestedFile(), "/")] = nestedBody
 		body = "$GENERATE 1-2 $$INCLUDE " + nestedFile() + "\n"
 		wantRecs, forbidden = -1, "inner"
+	case "overlong-completion":
+		// a relative name that is valid by itself but exceeds 255 octets once the origin is
+		// appended denotes no domain name: the line must be refused
+		if pbt.Known(kOverlong) {
+			pbt.Excluded(kOverlong)
+			pbt.Note(nil, false, "gate:"+c.Kind+"/excluded")
+			return nil
+		}
+		body = overlongLine(c.Depth % 4)
+		wantRecs = np
 	case "generate-in-include-depth":
 		// a $GENERATE that expands to $INCLUDE of a chain, includes allowed but no FS for the
 		// sub-parser: only the depth accounting and the gate are asserted via the safety oracle
@@ -1430,6 +1466,19 @@ func init() {
 		}
 		if out.Depth > depthBase {
 			return fmt.Errorf("1000 record-less $GENERATE / $INCLUDE lines are read %d calls deep", out.Depth)
+		}
+		return nil
+	})
+	c07Probe(kOverlong, func() error {
+		for v := 0; v < 4; v++ {
+			files := map[string]string{"o.db": overlongLine(v)}
+			out, viol := runParser(files, parserCfg{File: "o.db", Origin: "example."}, nil)
+			if viol != nil {
+				return fmt.Errorf("%s", strings.SplitN(viol.Error(), "\n", 2)[0])
+			}
+			if out.Err == nil {
+				return fmt.Errorf("variant %d: a name of 263 octets (255-octet relative name + origin example.) is accepted: %d records, no error", v, out.N)
+			}
 		}
 		return nil
 	})
